@@ -18,7 +18,8 @@ KINDS = ['loop-iter', 'loop-head', 'loop-back', 'loop-exit', 'loop-end-snap', 'f
          'setitem', 'setattr', 'enter', 'leave', 'slice', 'open', 'codec', 'unit-call', 'unit-ret', 'return', 'mutate-shared',
          'dict-pop', 'list-pop', 'call', 'seek', 'close', 'getitem', 'comprehension', 'comp-filter', 'caught', 'raise',
          'op-may-raise', 'print', 'recursion', 'global-write', 'class-attr-write', 'global-decl', 'list-append', 'new',
-         'fact:truth', 'fact:sym-eq', 'fact:eq', 'fact:seq-eq', 'fact:in', 'fact:order', 'fact:isinstance', 'fact:startswith']
+         'fact:truth', 'fact:sym-eq', 'fact:eq', 'fact:seq-eq', 'fact:in', 'fact:order', 'fact:isinstance', 'fact:startswith',
+         'fact:isnumeric', 'fact:isdigit', 'fact:isdecimal', 'fact:endswith', 'make-set', 'dict-update', 'getattr-proxy']
 
 
 def run(prop, kind, repo):
